@@ -40,11 +40,22 @@ def tagset_key(ts):
     return tuple((int(t.tagClass), int(t.tagFormat), int(t.tagId)) for t in ts.superTags)
 
 
+def initializers_key(obj):
+    """the record every later clone()/subtype()/decoded value of this object is built from (`readOnly`): which of its
+    entries still are the object's live attributes, and the tags it holds.  A call that leaves the object's own tags
+    alone but edits this record changes what the object yields from then on."""
+    ro = getattr(obj, '_readOnly', None)
+    if not isinstance(ro, dict):
+        return None
+    ts = ro.get('tagSet')
+    return (tuple(sorted((k, ro[k] is getattr(obj, k, None)) for k in ro)), tagset_key(ts) if ts is not None else None)
+
+
 def deep_snap(obj, depth=0):
     """everything a codec could have touched in a value or schema object"""
     if obj is noValue or obj is None:
         return 'noValue'
-    head = (type(obj).__name__, tagset_key(obj.tagSet), repr(obj.subtypeSpec))
+    head = (type(obj).__name__, tagset_key(obj.tagSet), repr(obj.subtypeSpec), initializers_key(obj))
     if isinstance(obj, univ.SequenceOfAndSetOfBase):
         cv = obj._componentValues
         body = 'noValue' if cv is noValue else tuple((k, deep_snap(c, depth + 1)) for k, c in cv.items())
